@@ -2,6 +2,7 @@ SPECIFICATION Spec
 CONSTANTS
  L = 3
  Chains <- Chains43
+ Closed <- NoRings
  Grid <- Grid3
  Bundle <- Bundle6
  MaxIter = 5
